@@ -19,7 +19,7 @@ pub fn body_facts<'tcx>(tcx: TyCtxt<'tcx>, owner: LocalDefId) -> J {
     let kind = tcx.def_kind(did);
     let mut j = J::obj();
     j.put("path", J::s(def_path(tcx, did)));
-    j.put("kind", J::s(format!("{:?}", kind)));
+    j.put("kind", J::s(defkind_str(kind)));
     let span = tcx.def_span(did);
     j.put("file", J::s(file_of(tcx, span)));
     span_json(tcx, span, &mut j);
